@@ -48,10 +48,18 @@ def run_ref(spec: dict) -> dict:
     pool = W.Pool(cat.pool_builders)
     table = {}
     arrays = {}
+    lines: dict = {}
+    tracer = _LineTracer() if spec.get("trace_lines") else None
     for key in spec["ops"]:
         op = cat.ops[key]
         try:
-            out = op.fn(pool)
+            if tracer and not op.atomic:
+                tracer.start()
+            try:
+                out = op.fn(pool)
+            finally:
+                if tracer and not op.atomic:
+                    lines[key] = tracer.stop()
             table[key] = ["ok", W.digest_tree(out)]
             arrays[key] = W.flatten_tree(out)
         except Exception as e:  # noqa: BLE001
@@ -59,7 +67,48 @@ def run_ref(spec: dict) -> dict:
     if spec.get("arrays_out"):
         with open(spec["arrays_out"], "wb") as f:
             pickle.dump(arrays, f)
-    return {"session": _session(), "table": table, "gaps": W.coverage_gaps(cat), "n_catalogue": len(cat.ops)}
+    if tracer:
+        tracer.close()
+    return {"session": _session(), "table": table, "lines": lines, "gaps": W.coverage_gaps(cat), "n_catalogue": len(cat.ops)}
+
+
+class _LineTracer:
+    """Which source lines of the package an operation executes (each reported once per operation): the
+    crash points the engine then enumerates. Observation only -- results are unaffected."""
+
+    def __init__(self):
+        from sim import TOOL_ID, package_functions
+
+        self.mon = sys.monitoring
+        self.tool = TOOL_ID
+        self.root = _package_root().rstrip("/") + "/"
+        self.mon.use_tool_id(self.tool, "premise-audit-ref")
+        self.mon.register_callback(self.tool, self.mon.events.LINE, self._cb)
+        self.codes = package_functions(self.root, (os.path.join(self.root, "viz") + "/",))
+        self.seen: list = []
+        self.on = False
+
+    def _cb(self, code, line):
+        if self.on:
+            self.seen.append(f"{code.co_filename[len(self.root):]}:{line}")
+        return self.mon.DISABLE  # once per location until restart_events()
+
+    def start(self):
+        self.seen = []
+        self.on = True
+        for code in self.codes:
+            self.mon.set_local_events(self.tool, code, self.mon.events.LINE)
+        self.mon.restart_events()
+
+    def stop(self):
+        self.on = False
+        for code in self.codes:
+            self.mon.set_local_events(self.tool, code, 0)
+        return self.seen
+
+    def close(self):
+        self.mon.register_callback(self.tool, self.mon.events.LINE, None)
+        self.mon.free_tool_id(self.tool)
 
 
 TOL = {"float32": 1e-4, "complex64": 1e-4, "float64": 1e-9, "complex128": 1e-9, "float16": 1e-2, "bfloat16": 1e-2}
@@ -130,6 +179,7 @@ def _run_one_plan(pj, spec, cat, seams, root, exclude, reference, load_arrays):
     sim = Simulator(plan, cat, seams, root, exclude, wall_cap=spec.get("wall_cap", 900.0))
     sim.record_trace = bool(spec.get("record_trace"))
     sim.keep_outputs = bool(spec.get("reference_arrays"))
+    sim.focus_files = set(spec.get("focus_files") or [])
     t0 = REAL_MONOTONIC()
     rec = {"seed": plan.seed, "plan": plan.to_json()}
     try:
@@ -147,10 +197,12 @@ def _run_one_plan(pj, spec, cat, seams, root, exclude, reference, load_arrays):
         want = reference[str(int(x64))].get(key)
         if want is None:
             continue  # no reference for this operation in this session: not judged
-        if [status, dig] == want:
+        if [status, dig] == want and status != "session-leak":
             continue
         m = {"op": key, "thread": tid, "index": idx, "x64": x64, "got": [status, dig[:16]], "want": [want[0], want[1][:16]]}
-        if status != want[0] or status == "raised":
+        if status == "session-leak":
+            m["severity"], m["why"] = "beyond", f"library code left the process-wide precision session changed ({dig}) after this operation; the simulator had set x64={x64}"
+        elif status != want[0] or status == "raised":
             m["severity"], m["why"] = "beyond", f"status {status}:{dig[:40]} vs {want[0]}:{want[1][:40]}"
         else:
             ref_leaves = load_arrays(x64).get(key)
@@ -269,6 +321,14 @@ def main():
         except (OSError, ValueError):
             pass
     warnings.simplefilter("ignore")
+    # locks created by package code become cooperative (see colock.py); must happen before the package is imported
+    import importlib.util
+
+    import colock
+
+    spec_ = importlib.util.find_spec("exponax")
+    if spec_ is not None and spec_.submodule_search_locations:
+        colock.install(list(spec_.submodule_search_locations)[0])
     spec = json.load(open(inp))
     real_stdout = sys.stdout
     sys.stdout = open(os.devnull, "w")
